@@ -4,7 +4,7 @@ import TunnoxModel.Model.C17Slot
 /-!
 Line protocol for C17.
 
-case  := `p <proto> lim <L> pre <k> [dead <d>] thr <n> (<inst> <nops> (a|r|o)*)*   (a = admission, r = release own, o = admission of another client, v = revoke own through the service, v<k> = revoke whose storage call k fails) sch <m> <tid>*`
+case  := `p <proto> lim <L> pre <k> [dead <d>] thr <n> (<inst> <nops> (a|r|o)*)*   (a = admission, r = release own, o = admission of another client, v = revoke own through the service, v<k> = revoke whose storage call k fails; mapq: u = usage update of mapping 0, w = revocation of mapping 0 - their threads carry the record lock as `inst`) sch <m> <tid>*`
 proto := `conn` | `conng` (connections without an id of their own: one step) | `ctrl` | `ctrlx` (Register with gated stream Close) | `tun` | `map` | `mapu` | `code` | `mapq`   (the instances of Model/C17; `mapu` = `map` with the limit taken from the user quota)
 obs   := event* `|` item*
 event := `stp.<tid>.<n>` | `blk.<tid>.<n>` | `adm.<tid>.<item>.<victim or ->.<n>` | `ref.<tid>.<dirty>.<n>`
@@ -75,6 +75,8 @@ def parseOps : Nat → List String → Option (List Op × List String)
   | n + 1, "a" :: ts => do let (ops, rest) ← parseOps n ts; pure (.acquire :: ops, rest)
   | n + 1, "r" :: ts => do let (ops, rest) ← parseOps n ts; pure (.release :: ops, rest)
   | n + 1, "o" :: ts => do let (ops, rest) ← parseOps n ts; pure (.other :: ops, rest)
+  | n + 1, "u" :: ts => do let (ops, rest) ← parseOps n ts; pure (.touch :: ops, rest)
+  | n + 1, "w" :: ts => do let (ops, rest) ← parseOps n ts; pure (.mrevoke :: ops, rest)
   | n + 1, "v" :: ts => do let (ops, rest) ← parseOps n ts; pure (.revoke none :: ops, rest)
   | n + 1, "v0" :: ts => do let (ops, rest) ← parseOps n ts; pure (.revoke (some 0) :: ops, rest)
   | n + 1, "v1" :: ts => do let (ops, rest) ← parseOps n ts; pure (.revoke (some 1) :: ops, rest)
